@@ -108,7 +108,7 @@ theorem run_loaded_err {s1 : St} (code : List Instr) (as : List AState) (N fuel 
     (hfrag : FragOK mainEnv (B s1.loops code) as) (h0 : as[0]? = some restState)
     (hex : (run fuel).run (loaded s1 code) = (.error .err, s')) :
     WF s' ∧ MainOK s' ∧ s'.data = [] ∧ s'.linear = s1.linear ∧ s'.addr = [] ∧ s'.loopstack = [] ∧
-        s'.curfunc = mainFn ∧ s'.suspended = [] := by
+        s'.curfunc = mainFn ∧ s'.suspended = [] ∧ LzOK s' := by
   obtain ⟨b, a0, hbm, hA, hbl, hh⟩ := loaded_running code as N hw hd ha hu hold hoids hids hN hpc hcode hfrag h0
   obtain ⟨s2, hs2⟩ : ∃ s2, s2 = loaded s1 code := ⟨_, rfl⟩
   rw [← hs2] at hex hh
@@ -173,7 +173,7 @@ theorem run_loaded_err {s1 : St} (code : List Instr) (as : List AState) (N fuel 
         · rw [hsx]; exact hf.tab.lazies
         · rw [hsx]; show ∀ c ∈ s2.data, _; rw [hs2]; show ∀ c ∈ s1.data, _; rw [hd]; intro c hc; cases hc
       refine ⟨hwx, ⟨hux, ?_, ?_, ?_⟩, by rw [hsx, hs2]; exact hd, by rw [hsx, hs2]; rfl, by rw [hsx, hs2]; exact ha,
-        hwx.loopstack, e3, by rw [hsx]; exact hsus2⟩
+        hwx.loopstack, e3, by rw [hsx]; exact hsus2, hf.lz.same (by rw [hsx]; rfl)⟩
       · rw [hfx, hcodeM]
         have : (szS s1).le (szS sx) := by
           have := he2.sz
@@ -317,10 +317,13 @@ theorem runText_errN (fuel : Nat) (es : List Expr) (s s' : St) (v : String) (tr 
         | panic => simp only [finishRun] at h; have := congrArg (fun x => x.1) h; simp at this
         | timeout => simp only [finishRun] at h; have := congrArg (fun x => x.1) h; simp at this
     obtain ⟨rfl, rfl⟩ := hcls
-    obtain ⟨r1, r2, r3, r4, r5, r6, r7, r8⟩ := run_loaded_err code as N fuel s3 hg1 hw1 d1 a1 su1 hu hold hoids hids hN hpc hcode hfrag h0 hr
+    obtain ⟨r1, r2, r3, r4, r5, r6, r7, r8, r9⟩ := run_loaded_err code as N fuel s3 hg1 hw1 d1 a1 su1 hu hold hoids hids hN hpc hcode hfrag h0 hr
     have hsv : Served s3 := served_of_parts hs.served (r4.trans l1) r1 r2 r3 r5 r6 r7 r8
-    refine ⟨hsv, ?_⟩
-    -- no nil cell: the stacks are those of entry, the lazy table grew by objects that captured the scope stack
-    sorry
+    refine ⟨hsv, ⟨?_, ?_, ?_, ?_, r9.1⟩, ?_, r9.2⟩
+    · rw [r3]; exact VMSafe.allSome_nil
+    · rw [r4, l1]; exact hs.nonil.good.linear
+    · rw [r5]; exact VMSafe.allSome_nil
+    · rw [r8]; intro l hl; cases hl
+    · rw [r4, l1]; exact hs.nonil.lin
 
 end ZygoVerif.RunInv
